@@ -23,6 +23,13 @@ type ScenCfg struct {
 	Ranges      bool // int ranges where accepted
 	MaxTail     int
 	NoNewline   bool // keep newlines out of attached values
+	CmdAsValue  bool // command names used as string option values
+	// Inject - when set, called once at item index InjectAt (or as the last item when the list is shorter)
+	// to produce a property-specific item in context.
+	Inject   func(g *ScenGen, prev *Item) *Item
+	InjectAt int
+	MinItems int
+	NoStopTail bool
 }
 
 func DefaultScen() ScenCfg {
@@ -42,6 +49,9 @@ var HostilePlain = []string{
 	" ", "a b", "a=b", "=a", "a=", "=", "\n", "a\nb", "\t", "é", "ß", "日本語", "😀", "\xff", "a\xffb", "'", "\"", "\\",
 	"true", "false", "0", "+5", "0x10", "1e3", ".5", "NaN", "a-b", "a--b", "/x", "٣", "a..b", "a,b",
 }
+
+// ScenGen - generation context handed to Inject hooks.
+type ScenGen = scenGen
 
 type scenGen struct {
 	r    *Rng
@@ -136,6 +146,11 @@ func (g *scenGen) genValue(o *Opt, attached bool, bad bool) string {
 			return g.r.Pick([]string{"1x", "x", "1.5.5", "1e999", "0x", "٣", " 1"})
 		case k == KMap:
 			return g.r.Pick([]string{"novalue", "x", "12"})
+		}
+	}
+	if k.IsStr() && g.cfg.CmdAsValue && g.r.Chance(1, 3) {
+		if cs := g.childCmds(); len(cs) > 0 {
+			return g.r.Pick(cs)
 		}
 	}
 	if k.IsStr() && g.cfg.HostileVals && g.r.Chance(1, 3) {
@@ -456,10 +471,20 @@ func GenScenario(r *Rng, p *Prog, cfg ScenCfg) *Scenario {
 	tree := Resolve(p)
 	g := &scenGen{r: r, cfg: cfg, tree: tree, node: tree.Root, pay: NewPayloads(r), mode: p.Mode}
 	s := &Scenario{Prog: p}
-	n := r.Range(0, cfg.MaxItems)
+	n := r.Range(cfg.MinItems, cfg.MaxItems)
+	if cfg.Inject != nil && n <= cfg.InjectAt {
+		n = cfg.InjectAt + 1
+	}
 	var prev *Item
 	stopped := false
 	for i := 0; i < n && !stopped; i++ {
+		if cfg.Inject != nil && i == cfg.InjectAt {
+			if it := cfg.Inject(g, prev); it != nil {
+				s.Items = append(s.Items, it)
+				prev = it
+			}
+			continue
+		}
 		w := []int{cfg.WPos, cfg.WOpt, cfg.WCmd, cfg.WUnk, cfg.WBundleUnk}
 		open := prev != nil && prev.Open
 		typedMulti := open && prev.K == IMulti && prev.Opt.Kind != KStrings
@@ -538,3 +563,10 @@ func mergeBundles(r *Rng, items []*Item) []*Item {
 	}
 	return items
 }
+
+// Exported accessors for Inject hooks.
+func (g *scenGen) R() *Rng         { return g.r }
+func (g *scenGen) Node() *Node     { return g.node }
+func (g *scenGen) Pay() *Payloads  { return g.pay }
+func (g *scenGen) Mode() int       { return g.mode }
+func (g *scenGen) Render(it *Item) { g.renderOpt(it) }
